@@ -574,15 +574,15 @@ macro_rules! harness {
 // committed index chains
 harness!(c12_index_chain_exact_small, false, index_chain(2, 2, false));
 harness!(c12_index_chain_exact_deep, false, index_chain(3, 2, false));
-harness!(c12_index_chain_prefix_small, false, index_chain(2, 2, true), 2, "prefix query over two indexes, two or more results");
-harness!(c12_index_chain_prefix_deep, false, index_chain(3, 1, true), 2, "prefix query over three indexes, two or more results");
-harness!(c12_index_chain_prefix_mixed, true, index_chain(2, 2, true), 2, "compound keys: two or more results");
+harness!(c12_index_chain_prefix_small, false, index_chain(2, 1, true), 2, "prefix query over two indexes, two or more results");
+harness!(c12_index_chain_prefix_deep, false, index_chain(2, 2, true), 2, "prefix query over three indexes, two or more results");
+harness!(c12_index_chain_prefix_mixed, true, index_chain(2, 1, true), 2, "compound keys: two or more results");
 // perspective -> prior perspective -> indexes
 harness!(c12_perspective_chain_exact_small, false, perspective_chain(1, Some(1), 1, 1, false));
 harness!(c12_perspective_chain_exact_deep, false, perspective_chain(2, Some(2), 2, 2, false));
-harness!(c12_perspective_chain_prefix_small, false, perspective_chain(1, Some(1), 1, 1, true), 2, "prefix query across perspective, prior perspective and index");
-harness!(c12_perspective_chain_prefix_deep, false, perspective_chain(2, Some(1), 2, 1, true), 2, "two or more results");
-harness!(c12_perspective_chain_prefix_mixed, true, perspective_chain(1, Some(1), 1, 1, true), 2, "compound keys: two or more results");
+harness!(c12_perspective_chain_prefix_small, false, perspective_chain(1, Some(1), 0, 1, true), 2, "prefix query across perspective and prior perspective");
+harness!(c12_perspective_chain_prefix_deep, false, perspective_chain(1, Some(1), 1, 1, true), 2, "prefix query across perspective, prior perspective and index");
+harness!(c12_perspective_chain_prefix_mixed, true, perspective_chain(1, Some(1), 0, 1, true), 2, "compound keys: two or more results");
 // writes / replayed updates
 harness!(c12_write_step_over_index, false, update_step(1, None, 1, false, false));
 harness!(c12_replay_step_over_index, false, update_step(1, None, 1, true, false));
@@ -592,4 +592,4 @@ harness!(c12_write_step_mixed, true, update_step(1, None, 1, false, false));
 // compaction
 harness!(c12_compact_exact, false, compact_case(2, 1, false));
 harness!(c12_compact_deep, false, compact_case(3, 1, false));
-harness!(c12_compact_prefix, false, compact_case(2, 2, true), 2, "prefix query on the compacted index, two or more results");
+harness!(c12_compact_prefix, false, compact_case(2, 1, true), 2, "prefix query on the compacted index, two or more results");
